@@ -71,6 +71,24 @@ def check_exp(ctx: Ctx, c: Dict[str, Any], k_: int = 0) -> None:
             bad("ExpFlow.inverse", "inverse module differs from the exponential of the negated field", dtype=dt, what="inverse")
         if mf is not None and d is not None and max_err(mf, d) > tol:
             bad("ExpFlow.forward[inverse]", "forward(inverse=True) differs from the exponential of the negated field", dtype=dt, what="inverse")
+        # the scale given as a 0-dim TENSOR, and the module used repeatedly: taking the inverse module / the inverse flag never changes what the
+        # module itself computes afterwards
+        for sname, sarg in (("tensor scale", torch.tensor(s, dtype=torch.float64)), ("float scale", s)):
+            mt = guarded("ExpFlow", lambda: ExpFlow(scale=sarg, steps=k, align_corners=ac), dtype=dt, scale_form=sname)
+            if mt is None:
+                continue
+            seq = [("first call", lambda: mt(v), exp), ("inverse module", lambda: mt.inverse()(v), None), ("call after inverse()", lambda: mt(v), exp),
+                   ("inverse flag", lambda: mt(v, inverse=True), None), ("inverse flag again", lambda: mt(v, inverse=True), None), ("call after inverse flag", lambda: mt(v), exp),
+                   ("inverse of inverse", lambda: mt.inverse().inverse()(v), exp)]
+            for stepname, fn_, want in seq:
+                o_ = guarded("ExpFlow", fn_, dtype=dt, scale_form=sname, step=stepname)
+                if o_ is None:
+                    break
+                w_ = want if want is not None else d
+                if w_ is not None and max_err(o_.to(torch.float64), w_.to(torch.float64)) > tol:
+                    bad("ExpFlow", f"[{sname}] {stepname}: differs from the {'closed form' if want is not None else 'exponential of the negated field'} by {max_err(o_.to(torch.float64), w_.to(torch.float64)):.3g}",
+                        dtype=dt, scale_form=sname, step=stepname, what="reuse")
+                    break
         # the exponential never changes the field it is given (steps = 0 included)
         v_keep = v.clone()
         for kw in (dict(scale=s), dict(scale=-s), dict(scale=0.5 * s), dict(scale=s, inverse=True)):
@@ -121,6 +139,13 @@ def check_exp(ctx: Ctx, c: Dict[str, Any], k_: int = 0) -> None:
         back = guarded("FlowFields.axes", lambda: ex.axes(Axes.from_align_corners(ac)).tensor(), axes=ax.value)
         if back is not None and max_err(back, exp) > 1e-4:
             bad("FlowFields.exp", f"exponential of the field stored with {ax.value} axes differs from the closed form by {max_err(back, exp):.3g}", axes=ax.value)
+    # the transform constructed with a tensor-valued scale, used after its inverse was taken
+    ts = guarded("StationaryVelocityFieldTransform", lambda: StationaryVelocityFieldTransform(g, params=v32, scale=torch.tensor(s), steps=k), scale_form="tensor")
+    if ts is not None:
+        guarded("StationaryVelocityFieldTransform.inverse", lambda: ts.inverse(update_buffers=True), scale_form="tensor")
+        u_ts = guarded("StationaryVelocityFieldTransform.update", lambda: ts.update().u, scale_form="tensor")
+        if u_ts is not None and max_err(u_ts, exp) > 2e-5:
+            bad("StationaryVelocityFieldTransform", f"[tensor scale] after taking the inverse the forward displacement differs from the closed form by {max_err(u_ts, exp):.3g}", scale_form="tensor")
     # inverse of the transform: its displacement buffer is the exponential of the negated field, whichever way it is obtained
     if t is not None:
         neg = guarded("expv[-scale]", lambda: U.expv(v32, scale=-s, steps=k, align_corners=ac))
